@@ -4,7 +4,7 @@
 From Coq Require Import List ZArith Bool Permutation.
 From RtoscV Require Ports.NameModel.
 From RtoscV Require Import Save.TopoModel Save.KahnProofs Save.TopoProofs Save.TopoEdges Save.TopoPerm Save.TopoTree Save.TopoRegress.
-From RtoscV Require Save.DeclModel Save.DeclProofs.
+From RtoscV Require Save.DeclModel Save.DeclProofs Save.CondModel Save.CondProofs.
 From RtoscV Require Import Save.SaveModel Save.SaveProofs Save.RoundFull Save.CommuteProofs Save.PermApp.
 Import ListNotations.
 
@@ -215,3 +215,9 @@ Theorem C13_enumerated_inner_switch_before_fix_refuted :
   scan_deps apropos_ex6 [p_a1on; p_a1x; p_a1tx] 60 p_a1on p_a1on = Some [] /\
   resolve_entry true [115; 47]%Z [115; 47; 111; 110]%Z [47; 115]%Z = rel2abs [115; 47; 111; 110]%Z [47; 115]%Z.
 Proof. exact enumerated_inner_switch_before_fix_refuted. Qed.
+
+(* "the dependency edges of the file are acyclic" (ranked, premise of C13_topo and
+   C13_perm_invariant) is evaluated by the tie on the edges scan_deps' model produces for
+   every generated file: a ranking is computed by relaxation and checked *)
+Theorem C13_ranked_computed : forall ps, CondModel.ranked_b ps = true -> ranked ps.
+Proof. exact CondProofs.ranked_b_sound. Qed.
